@@ -490,7 +490,7 @@ def build_variants(res, program):
     ref_state = model_state(ref.model)
     check_topological(res, ref, ref.model, program, "fresh build")
     named = all(it.get("named", True) for it in program["items"])
-    for variant in ("sinks", "reversed", "copy", "twice", "grow", "copy_twice"):
+    for variant in ("sinks", "reversed", "copy", "twice", "grow", "copy_twice", "grow_copy_twice"):
         b = programs.Built(program, build=False)
         used = set()
         for it in b.items:
@@ -518,6 +518,24 @@ def build_variants(res, program):
             check_structure(res, b, m, "Model(objects, grow=True)", program)
             if named and sorted(m.nodes) == ref_names and model_state(m) != ref_state:
                 res.violation("structure", "variant-grow-state", {"program": program}, f"lsl.Model(objects) gives a different state than GraphBuilder ({program['items']})")
+            continue
+        if variant == "grow_copy_twice":
+            # lsl.Model(objects, copy=True) must leave the user's objects usable: do it twice
+            try:
+                m1 = lsl.Model(objs, copy=True, to_float32=program.get("to_float32", True))
+                m2 = lsl.Model(objs, copy=True, to_float32=program.get("to_float32", True))
+            except Exception as e:
+                res.violation("structure", "model-copy-not-repeatable", {"program": program}, f"second lsl.Model(objects, copy=True) from the same objects failed: {type(e).__name__}: {e} ({program['items']})")
+                continue
+            res.transitions += 2
+            res.outcome("variant", variant, len(m2.nodes))
+            if model_state(m1) != model_state(m2):
+                res.violation("structure", "model-copy-not-repeatable", {"program": program}, f"two lsl.Model(objects, copy=True) from the same objects differ ({program['items']})")
+            for o in objs:
+                mm = o.model if not isinstance(o, lsl.Var) else o.value_node.model
+                if mm is not None:
+                    res.violation("structure", "copy-build-captures-original", {"program": program}, f"lsl.Model(objects, copy=True) put the original object {o} into a model")
+                    break
             continue
         if variant == "copy_twice":
             # build_model(copy=True) must leave the user's objects as they were: a second
